@@ -196,8 +196,10 @@ ALLOWED_AXIOMS = {
 }
 
 
-def coq_make(targets, timeout=1500):
+def coq_make(targets, timeout=1500, pre=None):
     with Lock("coq"):
+        if pre is not None:
+            pre()       # runs under the lock (prove(): removing the .vo must not race with another check's full build)
         coq_prepare()
         t0 = time.time()
         # every single coqc is bounded too, so that one diverging file cannot stall the others for the whole time limit
@@ -256,10 +258,12 @@ def prove(prop_file, pins=None):
         if not m:
             structure_errors.append(n)
     vo = os.path.join(COQ, "theories", "props", prop_file + ".vo")
-    # force recompilation of the props file so that Print Assumptions output is produced
-    if os.path.exists(vo):
-        os.remove(vo)
-    rc, out = coq_make(["theories/props/%s.vo" % prop_file])
+    # force recompilation of the props file so that Print Assumptions output is produced (under the coq lock: otherwise a
+    # concurrent build of everything can recreate the .vo in between and this make prints no assumptions at all)
+    def _drop():
+        if os.path.exists(vo):
+            os.remove(vo)
+    rc, out = coq_make(["theories/props/%s.vo" % prop_file], pre=_drop)
     theorems = []
     # split output: Print Assumptions results appear in order
     blocks = []
